@@ -16,9 +16,9 @@ PID = "C04"
 NAMESPACE = "Simu.C04"
 THEOREMS = ["target_step", "target_increment", "target_ge_min", "target_ge_min_history", "subject_iff",
             "pressure_law", "grow_spec", "grow_frame", "initial_pressure",
-            "ready_iff", "clamp3_range", "clamp3_keeps", "clamp3_range_division", "clamp_division_inf", "newborn_in_range",
+            "ready_iff", "clamp3_range", "clamp3_keeps", "clamp3_range_division", "clamp_division_inf", "newborn_in_range", "daughter_spec",
             "removed_exactly", "mem_removeSmall", "removed_order", "iterate_removes", "removed_id_gone",
-            "ids_later", "never_reappears", "fresh_ids"]
+            "init_ids", "ids_later", "never_reappears", "fresh_ids"]
 GEN = ["CellCycle"]
 INF = float("inf")
 HARNESS = os.path.join(vlib.VERIF, "harness", "h_cycle.cpp")
